@@ -5,6 +5,7 @@ package main
 
 import (
 	"fmt"
+	"math/big"
 	"strconv"
 	"strings"
 	"unicode"
@@ -115,11 +116,11 @@ func lex(src string) ([]tok, error) {
 			for j < len(src) && (unicode.IsDigit(rune(src[j])) || unicode.IsLetter(rune(src[j])) || src[j] == '_') {
 				j++
 			}
-			v, err := strconv.ParseInt(strings.ReplaceAll(src[i:j], "_", ""), 0, 64)
-			if err != nil {
+			bv, ok := new(big.Int).SetString(strings.ReplaceAll(src[i:j], "_", ""), 0)
+			if !ok {
 				return nil, fmt.Errorf("bad int %q", src[i:j])
 			}
-			toks = append(toks, tok{"int", strconv.FormatInt(v, 10)})
+			toks = append(toks, tok{"int", bv.String()})
 			i = j
 		case c == '"':
 			j := i + 1
@@ -336,6 +337,12 @@ func (ps *sparser) typ() *SType {
 	}
 	if t.s == "chan" {
 		return &SType{Kind: "chan", Elem: ps.typ()}
+	}
+	if t.s == "func" {
+		// only the identity of function values matters in contracts: func() / func() T
+		ps.expectOp("(")
+		ps.expectOp(")")
+		return &SType{Kind: "func"}
 	}
 	st := &SType{Kind: "name", Name: t.s}
 	// package path: a/b/c.T
